@@ -101,7 +101,7 @@ MCHonestAccepted == [][(net.phase = "resp" /\ net'.phase = "idle") => last'.res 
 MCRejectLeavesState == [][last'.res \in {"reject", "empty", "ignored"} => a' = a]_mcvars
 MCNeverForgets == [][a.hdrs \subseteq a'.hdrs /\ b.hdrs \subseteq b'.hdrs]_mcvars
 MCRoundProgress == [][(net.phase = "resp" /\ net'.phase = "idle" /\ net.fresh) =>
-                       /\ Phi' = Phi - 1
+                       /\ PhiOf(a', b) = PhiOf(a, b) - 1
                        /\ a'.insync /\ IsAnc(a'.sync, b.hhead)
                        /\ Height(a'.sync) = Min(Height(FindCommon(net.loc, b)) + MaxHeaders, Height(b.hhead))]_mcvars
 View == <<br, a, b, net, a0, used, rounds>>
